@@ -232,6 +232,26 @@ def translate_ops():
         row["detail"].append(f"3.{v[1]}:class={has_class},handler={has_handler}")
   if 9 not in [o.op for o in bytecode.wordcode_reader(bytes([9, 0]))]:
     raise TranslatorError("probe of pycnite.wordcode_reader is broken (NOP not yielded)")
+  # the same fact on real code: CPython emits EXTENDED_ARG for the 300th constant, pytype's opcode list has none
+  import dis as cpython_dis
+  from pytype.pyc import pyc
+  big = "def f(a):\n" + "".join(f"  a = a + 's{i}'\n" for i in range(300)) + "  return a\n"
+  code = compile(big, "big.py", "exec")
+  def all_codes(c):
+    yield c
+    for k in c.co_consts:
+      if hasattr(k, "co_code"):
+        yield from all_codes(k)
+  cpy = {i.opname for c in all_codes(code) for i in cpython_dis.get_instructions(c)}
+  pcode = pyc.compile_src(big, "big.py", sys.version_info[:2], None)
+  def all_pcodes(c):
+    yield c
+    for k in c.co_consts:
+      if hasattr(k, "co_code"):
+        yield from all_pcodes(k)
+  pyt = {o.name for c in all_pcodes(pcode) for o in opcodes.dis(c)}
+  if sys.version_info[:2] == (3, 12) and ("EXTENDED_ARG" not in cpy or "EXTENDED_ARG" in pyt):
+    raise TranslatorError(f"EXTENDED_ARG probe on real code: cpython emits={'EXTENDED_ARG' in cpy}, pytype sees={'EXTENDED_ARG' in pyt}")
   rows = [(n, r["versions"], r["absorbed"], r["cls"], r["handler"], ";".join(r["detail"])) for n, r in by_name.items()]
   intr = []
   for src_fn, descs in (("byte_CALL_INTRINSIC_1", mapping.PYTHON_3_12_INTRINSIC_1_DESCS),
@@ -706,7 +726,7 @@ def build_jobs(res, r, thorough):
   for f in sorted(os.listdir(cdir)) if os.path.isdir(cdir) else []:
     d = json.load(open(os.path.join(cdir, f)))
     jobs.append(("corpus:" + f, "corpus", d["src"], {"check": bool(d.get("check"))}))
-  n_prog = 4000 if thorough else 300
+  n_prog = 3000 if thorough else 300
   feats = collections.Counter()
   kinds = collections.Counter()
   progs = []
@@ -725,7 +745,7 @@ def build_jobs(res, r, thorough):
     jobs.append((f"mut{i}", "mutant", m, {"check": i % 4 == 1, "mutation": k}))
   files = c15_gen.stdlib_files(include_tests=False)
   r.shuffle(files)
-  n_slices = 6000 if thorough else 60
+  n_slices = 4000 if thorough else 60
   max_lines = 250 if thorough else 60
   cnt = 0
   for p in files:
@@ -779,7 +799,7 @@ def search(res, r, thorough):
   jobs = build_jobs(res, r, thorough)
   nworkers = 6
   timeout = 60 if thorough else 20
-  budget = 1500 if thorough else 75
+  budget = 1320 if thorough else 75
   deadline = time.time() + budget
   by_id = {j[0]: j for j in jobs}
   t0 = time.time()
@@ -814,6 +834,34 @@ def search(res, r, thorough):
     for fp, what in viol:
       if fp not in found or len(src) < len(by_id[found[fp][1]][2]):
         found[fp] = (what, jid)
+  # which 3.12 opcodes the explored compiling inputs contain (CPython's own disassembly; a coverage measure only)
+  import dis as cpython_dis
+  explored_ops = set()
+  n_dis = 0
+  for jid, kind, src, meta in jobs:
+    rr = results.get(jid, {"status": "skipped"})
+    if rr.get("status") not in ("ok", "raise") or n_dis >= 1500:
+      continue
+    try:
+      with warnings.catch_warnings():
+        warnings.simplefilter("ignore")
+        code = compile(seen_text(src), "input.py", "exec", dont_inherit=True)
+    except Exception:  # pylint: disable=broad-except
+      continue
+    n_dis += 1
+    todo = [code]
+    while todo:
+      c = todo.pop()
+      explored_ops.update(i.opname for i in cpython_dis.get_instructions(c))
+      todo.extend(k for k in c.co_consts if hasattr(k, "co_code"))
+  try:
+    from pycnite import mapping
+    table312 = set(mapping.get_mapping((3, 12)).values())
+  except Exception:  # pylint: disable=broad-except
+    table312 = set()
+  res.extra["opcode_coverage_3_12"] = {
+      "in_table": len(table312), "exercised": len(explored_ops & table312),
+      "never_generated": sorted(table312 - explored_ops)}
   n_reported = 0
   for fp, (what, jid) in found.items():
     _, kind, src, meta = by_id[jid]
@@ -825,6 +873,9 @@ def search(res, r, thorough):
     if n_reported >= 3:
       continue
     small = minimise(src, fp, entry_kw, 20.0 if n_reported == 0 else 8.0)
+    # does it fail on a fresh worker, independent of what that worker analysed before?
+    chk = c15_pool.run_jobs([dict(entry_kw, id="confirm", src=small)], 1, 60, tag="confirm")["confirm"]
+    replay["confirmed_in_isolation"] = any(f == fp for f, _ in judge(small, chk)[1])
     replay["src"] = small
     replay["original_src"] = src if len(src) < 6000 else src[:6000]
     res.violation(fp, what, replay)
@@ -858,6 +909,10 @@ def run(res):
       "PARTIAL: the VM itself is not modelled; 'no internal exception escapes' is established by search only",
       "CPython 3.12.1's compile()/ast.parse are the reference for 'CPython cannot compile the text' and for the blamed line",
       "typeshed is absent in this environment: inputs that make pytype load a typeshed module are not explorable",
+      "expected line of the single python-compiler-error: if ast.parse rejects the text (directors.parse_src sees the same "
+      "SyntaxError first) it is `e.lineno or 0`; if only compile() rejects it (symtable/codegen, CompileError branch) it is the "
+      "N of '(file, line N)' in str(err), i.e. e.lineno, or 1 when CPython gives no line; line 0 is accepted only in the first case "
+      "with lineno None (null bytes)",
       "byte_* handler presence/arity is read from the live classes (inspect); handler bodies are exercised by search only",
       "generator, mutator, oracle and differ in harness/props/c15*.py",
   ]
